@@ -589,13 +589,21 @@ def check_moment_caches(prog, ctx):
         CN = cnames[0] if len(set(cnames)) == 1 else None
         cdefs = [b for b in tm0.env.bindings.get(CN, []) if b.kind == "assign"]
         slot = tm0.term(cdefs[0].value) if len(cdefs) == 1 else None
+        if slot is None and CN is None:
+            # the slot used directly, without a local:  self.cached_moments[K][key]
+            direct = {tm0.term(n) for n in ast.walk(fi.node) if isinstance(n, ast.Subscript) and isinstance(n.value, ast.Attribute)
+                      and R.self_attr(n.value, "self") == "cached_moments"}
+            if len(direct) == 1:
+                slot = direct.pop()
+
+        def is_cache(e):
+            return (isinstance(e, ast.Name) and e.id == CN) if CN is not None else (slot is not None and tm0.term(e) == slot)
         if not (slot and slot[0] == "s" and slot[1] == ("a", ("n", "self"), "cached_moments") and slot[2][0] == "c"):
             problems.append("the cache is not one fixed slot of self.cached_moments")
         else:
             slots[name] = slot[2][1]
-        subs = [n for n in ast.walk(fi.node) if isinstance(n, ast.Subscript) and isinstance(n.value, ast.Name) and n.value.id == CN]
-        mem = [n for n in ast.walk(fi.node) if isinstance(n, ast.Compare) and isinstance(n.ops[0], ast.In) and isinstance(n.comparators[0], ast.Name)
-               and n.comparators[0].id == CN]
+        subs = [n for n in ast.walk(fi.node) if isinstance(n, ast.Subscript) and is_cache(n.value)]
+        mem = [n for n in ast.walk(fi.node) if isinstance(n, ast.Compare) and isinstance(n.ops[0], ast.In) and is_cache(n.comparators[0])]
         keys = {repr(tm.term(n.slice)) for n in subs} | {repr(tm.term(n.left)) for n in mem}        # a key held in a local is looked through
         if keys != {repr(key)} or not mem or len(subs) < 2:
             problems.append("membership test, lookup and store do not all use the key (x1, x2)")
